@@ -70,8 +70,8 @@ def _c10_workloads(ctx):
     quick = ctx.tier == "quick"
     out = []
     plans = [(4, '{"d1","R"}', '{"d1"}', 2, 110)] if quick else \
-            [(4, '{"d1","R"}', '{"d1"}', 2, None), (5, '{"d1","R"}', '{"d1"}', 2, 220), (6, '{"d1","R"}', '{"d1"}', 3, 160),
-             (4, '{"d1","d2","R"}', '{"d1","d2"}', 1, 120)]
+            [(4, '{"d1","R"}', '{"d1"}', 2, None), (5, '{"d1","R"}', '{"d1"}', 2, 150), (6, '{"d1","R"}', '{"d1"}', 3, 100),
+             (4, '{"d1","d2","R"}', '{"d1","d2"}', 1, 80)]
     for (ln, dev, snd, ms, limit) in plans:
         r = ctx.tlc("GenRatchetStore", "Gen_RatchetStore.cfg", name="gen_L%d_%d" % (ln, len(snd)), workers=1 if quick else 4,
                     consts={"MaxLen": str(ln), "MaxOps": str(ln), "Dev": dev, "Senders": snd, "MaxSent": str(ms)}, timeout=1500, heap="6g")
@@ -79,7 +79,7 @@ def _c10_workloads(ctx):
         sc = vf.scripts_from_tlc(hs, limit=limit, rng=ctx.rng)
         out += [s["steps"] for s in sc]
     # longer random walks, two senders
-    for (ln, num) in ([(6, 60)] if quick else [(6, 120), (8, 90)]):
+    for (ln, num) in ([(6, 60)] if quick else [(6, 70), (8, 50)]):
         r = ctx.tlc("GenRatchetStore", "Gen_RatchetStore.cfg", name="sim_L%d" % ln, workers=1, simulate="num=%d" % num, depth=ln * 8 + 10,
                     consts={"MaxLen": str(ln), "MaxOps": str(ln), "Dev": '{"d1","d2","R"}', "Senders": '{"d1","d2"}', "MaxSent": "3"},
                     timeout=1500, heap="6g")
